@@ -177,6 +177,22 @@ def make_app(cfg):
     nodes = list(cfg["cmds"])
     held = nodes.pop() if staged and len(nodes) > 1 and not nodes[-1]["builtin"] else None
 
+    def add_subs(c, node):
+        for sub in node["subs"]:
+            if subway == 0:
+                with c.sub_command(sub["name"]) as s:
+                    _fill_command(s, sub, K, kw, later)
+                    add_subs(s, sub)
+            elif subway == 1:
+                s = c.create_sub_command(sub["name"])
+                _fill_command(s, sub, K, kw, later)
+                add_subs(s, sub)
+            else:
+                s = CommandConfig(sub["name"])
+                _fill_command(s, sub, K, kw, later)
+                add_subs(s, sub)
+                c.add_sub_command_config(s)
+
     def add_command(node):
         if node["builtin"]:
             if not full:
@@ -186,16 +202,7 @@ def make_app(cfg):
             return
         with conf.command(node["name"]) as c:
             _fill_command(c, node, K, kw, later)
-            for sub in node["subs"]:
-                if subway == 0:
-                    with c.sub_command(sub["name"]) as s:
-                        _fill_command(s, sub, K, kw, later)
-                elif subway == 1:
-                    _fill_command(c.create_sub_command(sub["name"]), sub, K, kw, later)
-                else:
-                    s = CommandConfig(sub["name"])
-                    _fill_command(s, sub, K, kw, later)
-                    c.add_sub_command_config(s)
+            add_subs(c, node)
 
     for node in nodes:
         add_command(node)
@@ -266,6 +273,21 @@ def tokenise(text):
 NOOBS = {"kind": "", "cls": "", "lines": []}
 
 
+def walk(nodes):
+    """every command configuration of the tree, parents first"""
+    for c in nodes:
+        yield c
+        for x in walk(c["subs"]):
+            yield x
+
+
+def node_at(cfg, p):
+    c = cfg["cmds"][p[0] - 1]
+    for k in p[1:]:
+        c = c["subs"][k - 1]
+    return c
+
+
 def normalise(cfg):
     """fields added to the configuration format later get their neutral values (stored replay cases stay usable)"""
     cfg.setdefault("gargs", [])
@@ -274,10 +296,9 @@ def normalise(cfg):
     cfg.setdefault("tnl", False)
     for o in cfg["gopts"]:
         o.setdefault("vn", "...")
-    for c in cfg["cmds"]:
-        for x in [c] + c["subs"]:
-            for o in x["opts"]:
-                o.setdefault("vn", "...")
+    for x in walk(cfg["cmds"]):
+        for o in x["opts"]:
+            o.setdefault("vn", "...")
     return cfg
 
 
@@ -291,8 +312,8 @@ def help_object(app, cfg, p):
     if not p:
         return ApplicationHelp(app)
     cmd = app.get_command(cfg["cmds"][p[0] - 1]["name"])
-    if len(p) == 2:
-        cmd = cmd.get_sub_command(cfg["cmds"][p[0] - 1]["subs"][p[1] - 1]["name"])
+    for n in range(2, len(p) + 1):
+        cmd = cmd.get_sub_command(node_at(cfg, p[:n])["name"])
     return CommandHelp(cmd)
 
 
@@ -329,9 +350,9 @@ def other_width(width):
     return width + 13 if width < 120 else width - 37
 
 
-def run_request(cfg, tokens, width, ansi, form="argv"):
-    """one run of a freshly built application (no state of an earlier run can leak in); the command line is given as
-    an argument vector or as one string"""
+def run_request(cfg, tokens, width, ansi, form="argv", app=None):
+    """one run of a freshly built application (no state of an earlier run can leak in) or, in a session, of the
+    application given; the command line is given as an argument vector or as one string"""
     saved = {k: os.environ.get(k) for k in ("COLUMNS", "LINES")}
     try:
         from clikit.args import ArgvArgs, StringArgs
@@ -342,7 +363,8 @@ def run_request(cfg, tokens, width, ansi, form="argv"):
             def supports_ansi(self):
                 return True
 
-        app = make_app(cfg)
+        if app is None:
+            app = make_app(cfg)
         out, err = (AnsiStream if ansi else BufferedOutputStream)(), BufferedOutputStream()
         os.environ["COLUMNS"] = str(width)
         os.environ["LINES"] = "50"
@@ -366,37 +388,63 @@ def run_request(cfg, tokens, width, ansi, form="argv"):
 
 def targets(cfg):
     out = [[]]
-    for i, c in enumerate(cfg["cmds"]):
-        if not c["enabled"]:
-            continue
-        out.append([i + 1])
-        for j, s in enumerate(c["subs"]):
-            if s["enabled"]:
-                out.append([i + 1, j + 1])
+
+    def below(nodes, pre):
+        for i, c in enumerate(nodes):
+            if c["enabled"]:
+                out.append(pre + [i + 1])
+                below(c["subs"], pre + [i + 1])
+
+    below(cfg["cmds"], [])
     return out
 
 
 def requests(cfg, with_builtin):
-    out = [(0, 0)]
-    for i, c in enumerate(cfg["cmds"]):
-        if not c["enabled"] or c["anon"] or (c["builtin"] and not with_builtin):
-            continue
-        out.append((i + 1, 0))
-        for j, s in enumerate(c["subs"]):
-            if s["enabled"] and not s["anon"]:
-                out.append((i + 1, j + 1))
+    """paths of the commands a request can name: enabled, named, at any depth"""
+    out = [[]]
+
+    def below(nodes, pre):
+        for i, c in enumerate(nodes):
+            if not c["enabled"] or c["anon"] or (c["builtin"] and not with_builtin):
+                continue
+            out.append(pre + [i + 1])
+            below(c["subs"], pre + [i + 1])
+
+    below(cfg["cmds"], [])
     return out
 
 
+def req(q, al=0, flag="--help", form="argv", extra=""):
+    return {"q": list(q), "al": al, "flag": flag, "form": form, "extra": extra}
+
+
+def as_req(r):
+    """stored cases of earlier versions describe a request as [i, j, alias index, flag(, form, extra)]"""
+    if isinstance(r, dict):
+        return r
+    return req([x for x in r[:2] if x], r[2], r[3], r[4] if len(r) > 4 else "argv", r[5] if len(r) > 5 else "")
+
+
+def request_names(cfg, r):
+    """the words of the path, each by name or by one of its aliases"""
+    names, al = [], r["al"]
+    for n in range(1, len(r["q"]) + 1):
+        c = node_at(cfg, r["q"][:n])
+        ns = [c["name"]] + c["aliases"]
+        names.append(ns[al % len(ns)])
+        al //= 7
+    return names
+
+
 def event(op, **kw):
-    e = {"op": op, "cfg": 0, "T": 0, "p": [], "obs": NOOBS, "runA": False, "i": 0, "j": 0, "a": NOOBS, "b": NOOBS}
+    e = {"op": op, "cfg": 0, "T": 0, "p": [], "obs": NOOBS, "runA": False, "q": [], "a": NOOBS, "b": NOOBS}
     e.update(kw)
     return e
 
 
 def record(case):
-    """case = {cfg, T, ansi, pages: [path], reqs: [[i, j, alias index, flag, form, extra]], runA, noA: [paths without
-    A-layer], again: render every help object a second time} -> the trace for HelpPageTrace.
+    """case = {cfg, T, ansi, pages: [path], reqs: [req(..)], session: [req(..)], runA, noA: [paths without A-layer],
+    again: render every help object a second time} -> the trace for HelpPageTrace.
     The first renderings of a trace share ONE I/O object; with `again` every help object is rendered once more on a fresh
     I/O of another width and the other formatter (plain <-> ANSI)."""
     cfg, width, ansi = normalise(case["cfg"]), case["T"], case.get("ansi", False)
@@ -424,31 +472,34 @@ def record(case):
         if case.get("again"):
             w2 = other_width(width)
             trace.append(event("page", p=list(p), obs=render_on(page, new_io(w2, not ansi)), runA=a_here, T=w2))
-    for r in case["reqs"]:
-        i, j, al, flag = r[:4]
-        form = r[4] if len(r) > 4 else "argv"
-        extra = [r[5]] if len(r) > 5 and r[5] else []
-        names = []
-        if i:
-            c = cfg["cmds"][i - 1]
-            ns = [c["name"]] + c["aliases"]
-            names.append(ns[al % len(ns)])
-            if j:
-                s = c["subs"][j - 1]
-                ns = [s["name"]] + s["aliases"]
-                names.append(ns[(al // 7) % len(ns)])
-        a = run_request(cfg, ["help"] + names + extra, width, ansi, form)
-        b = run_request(cfg, names + [flag] + extra, width, ansi, form)
-        trace.append(event("request", i=i, j=j, a=a, b=b, runA=run_a and not noa))
+    for r in map(as_req, case["reqs"]):
+        names, extra = request_names(cfg, r), ([r["extra"]] if r["extra"] else [])
+        a = run_request(cfg, ["help"] + names + extra, width, ansi, r["form"])
+        b = run_request(cfg, names + [r["flag"]] + extra, width, ansi, r["form"])
+        trace.append(event("request", q=r["q"], a=a, b=b, runA=run_a and not noa))
+    if case.get("session"):
+        # ONE application answers a sequence of requests (flag "help" = the `help <path>` form); what it shows for a
+        # command must not depend on what it was asked before - each answer is judged like a request of its own
+        try:
+            sapp, sfailed = make_app(cfg), None
+        except T.MachineryError:
+            raise
+        except Exception as e:  # noqa
+            sapp, sfailed = None, exc_obs(e, "build:")
+        for r in map(as_req, case["session"]):
+            names, extra = request_names(cfg, r), ([r["extra"]] if r["extra"] else [])
+            toks = ["help"] + names + extra if r["flag"] == "help" else names + [r["flag"]] + extra
+            o = sfailed if sfailed is not None else run_request(cfg, toks, width, ansi, r["form"], app=sapp)
+            trace.append(event("request", q=r["q"], a=o, b=o, runA=run_a and not noa))
     return trace
 
 
 def _tagged_page(cfg, p):
     if not p:
         return False
-    c = cfg["cmds"][p[0] - 1]
-    nodes = [c] + (c["subs"] if len(p) == 1 else [c["subs"][p[1] - 1]])
-    return any(a["name"] in STYLE_TAGS for x in nodes for a in x["args"])
+    c = node_at(cfg, p)
+    shown = [node_at(cfg, p[:n]) for n in range(1, len(p) + 1)] + list(c["subs"])
+    return any(a["name"] in STYLE_TAGS for x in shown for a in x["args"])
 
 
 def subcases(case):
@@ -458,22 +509,20 @@ def subcases(case):
     cfg = case["cfg"]
 
     def req_isolated(r):
-        i, j = r[0], r[1]
-        if not i:
+        q = as_req(r)["q"]
+        if not q:
             return False
-        c = cfg["cmds"][i - 1]
-        if c["builtin"]:
+        if cfg["cmds"][q[0] - 1]["builtin"]:
             return True
-        if j:
-            return _tagged_page(cfg, [i, j])
-        ds = [[i, n + 1] for n, x in enumerate(c["subs"]) if x["enabled"] and x["dflt"]]
-        return any(_tagged_page(cfg, p) for p in (ds or [[i]]))
+        ds = [q + [n + 1] for n, x in enumerate(node_at(cfg, q)["subs"]) if x["enabled"] and x["dflt"]]
+        return any(_tagged_page(cfg, p) for p in (ds or [q]))
 
     iso_p = [p for p in case["pages"] if _tagged_page(cfg, p)]
     iso_r = [r for r in case["reqs"] if req_isolated(r)]
-    out = [dict(case, pages=[p for p in case["pages"] if p not in iso_p], reqs=[r for r in case["reqs"] if r not in iso_r])]
-    out += [dict(case, pages=[p], reqs=[]) for p in iso_p]
-    out += [dict(case, pages=[], reqs=[r]) for r in iso_r]
+    out = [dict(case, pages=[p for p in case["pages"] if p not in iso_p], reqs=[r for r in case["reqs"] if r not in iso_r],
+                session=[r for r in case.get("session", []) if not req_isolated(r)])]
+    out += [dict(case, pages=[p], reqs=[], session=[]) for p in iso_p]
+    out += [dict(case, pages=[], reqs=[r], session=[]) for r in iso_r]
     return out
 
 
@@ -494,6 +543,7 @@ ARG_NAMES = ["name", "path", "file", "target", "source", "dest", "key", "value",
 OPT_NAMES = ["force", "dry-run", "output", "format", "verbose-level", "all", "tree", "no-dev", "with", "without", "only",
              "extras", "python", "lock", "remove-untracked", "quiet-mode", "jobs", "xy", "yes", "no-cache",
              "anoptionwhoselongnameislongerthanmostlabels"]
+LEAF_NAMES = ["add", "remove", "list", "show"]
 ALIASES = ["ad", "rm", "ls", "sh", "cfg", "i", "up", "s2", "cc", "r", "bld", "e", "chk", "lk", "ex", "mk"]
 DEFAULTS = [["\"text\""], ["7"], ["1.5"], ["true"], ["false"], ["\"two", "words\""], ["\"" + "z" * 45 + "\""], ["0"], ["-3"], ['""']]
 LIST_DEFAULTS = [["[\"a\",", "\"b\"]"], ["[1,", "2,", "3]"], ["[\"only\"]"]]
@@ -584,8 +634,15 @@ def random_cfg(rng, tags=False):
     names = {"help"}
     aliases = set()
 
-    def node(sub, parent_state):
-        pool = [x for x in CMD_NAMES if x not in names and x not in sub_names] if sub else [x for x in CMD_NAMES if x not in names]
+    def node(sub, parent_name):
+        if sub:
+            # leaf names repeat across parents (pkg add / repo add), a child may be named like its parent
+            pool = [x for x in LEAF_NAMES if x not in sub_names] if rng.random() < 0.7 else []
+            if parent_name not in sub_names and rng.random() < 0.15:
+                pool = [parent_name]
+            pool = pool or [x for x in CMD_NAMES if x not in sub_names]
+        else:
+            pool = [x for x in CMD_NAMES if x not in names]
         name = rng.choice(pool)
         (sub_names if sub else names).add(name)
         al = []
@@ -630,10 +687,22 @@ def random_cfg(rng, tags=False):
         cl, cs = set(longs), set(shorts)
         c["opts"] = _opts(rng, cl, cs, rng.choice([0, 1, 2, 3]))
         if has_subs:
+            cname = c["name"].rstrip("9")
             for _k in range(rng.randint(1, 3)):
-                s, _x = node(True, None)
-                s["args"], _st = _args(rng, set(taken), st, rng.choice([0, 1, 2, 3]), tags)
-                s["opts"] = _opts(rng, set(cl), set(cs), rng.choice([0, 0, 1, 2, 3]))
+                s, _x = node(True, cname)
+                staken = set(taken)
+                s["args"], sst = _args(rng, staken, st, rng.choice([0, 1, 2, 3]), tags)
+                sl, ss = set(cl), set(cs)
+                s["opts"] = _opts(rng, sl, ss, rng.choice([0, 0, 1, 2, 3]))
+                if not s["anon"] and rng.random() < 0.4:  # a third level (with its own hidden / disabled commands)
+                    outer, sub_names = sub_names, set()
+                    for _m in range(rng.randint(1, 2)):
+                        t3, _y = node(True, s["name"].rstrip("9"))
+                        t3["args"], _st3 = _args(rng, set(staken), sst, rng.choice([0, 0, 1, 2]), tags)
+                        t3["opts"] = _opts(rng, set(sl), set(ss), rng.choice([0, 0, 1, 2]))
+                        s["subs"].append(t3)
+                    _rank(s["subs"])
+                    sub_names = outer
                 c["subs"].append(s)
             _rank(c["subs"])
         cmds.append(c)
@@ -654,11 +723,14 @@ def longest_label(cfg):
     n = [9]
     for o in cfg["gopts"]:
         n.append(len(o["long"]) + 2 + (len(o["short"]) + 4 if o["short"] else 0))
-    for c in cfg["cmds"]:
-        for x in [c] + c["subs"]:
-            n.append(4 + len(cfg["app"]) + 1 + len(c["name"]) + 1 + len(x["name"]) + 2)
-            n += [len(a["name"]) + 2 for a in x["args"]]
-            n += [len(o["long"]) + 2 + (len(o["short"]) + 4 if o["short"] else 0) for o in x["opts"]]
+    def below(nodes, pre):
+        for x in nodes:
+            n.append(4 + len(cfg["app"]) + pre + 1 + len(x["name"]) + 2)
+            n.extend(len(a["name"]) + 2 for a in x["args"])
+            n.extend(len(o["long"]) + 2 + (len(o["short"]) + 4 if o["short"] else 0) for o in x["opts"])
+            below(x["subs"], pre + 1 + len(x["name"]))
+
+    below(cfg["cmds"], 0)
     return max(n)
 
 
@@ -672,13 +744,12 @@ def hyphenated(cfg):
         words += ["[<" + a["name"] + ">]"] + a["desc"]
     for o in cfg["gopts"]:
         words += ["[--" + o["long"] + "]", "[--" + o["long"] + "\u00a0[<...>]]"] + o["desc"] + o["dflt"]
-    for c in cfg["cmds"]:
-        for x in [c] + c["subs"]:
-            words += [x["name"]] + x["aliases"] + x["desc"] + [y for par in x["help"] for y in par]
-            for a in x["args"]:
-                words += ["[<" + a["name"] + ">]", "[<" + a["name"] + "1>]", "[<" + a["name"] + "N>]"] + a["desc"] + a["dflt"]
-            for o in x["opts"]:
-                words += ["[--" + o["long"] + "]", "[--" + o["long"] + "\u00a0[<...>]]"] + o["desc"] + o["dflt"]
+    for x in walk(cfg["cmds"]):
+        words += [x["name"]] + x["aliases"] + x["desc"] + [y for par in x["help"] for y in par]
+        for a in x["args"]:
+            words += ["[<" + a["name"] + ">]", "[<" + a["name"] + "1>]", "[<" + a["name"] + "N>]"] + a["desc"] + a["dflt"]
+        for o in x["opts"]:
+            words += ["[--" + o["long"] + "]", "[--" + o["long"] + "\u00a0[<...>]]"] + o["desc"] + o["dflt"]
     return any(len(w._split(x)) != 1 for x in words if x)
 
 
@@ -688,10 +759,13 @@ def random_case(rng, tags=False):
     width = rng.randint(40, 200) if r < 0.6 else (rng.randint(40, 70) if r < 0.85 else longest_label(cfg) + 10 + rng.randint(0, 4))
     extras = ["", "", "--no-ansi", "--ansi", "-v", "-n"] if cfg["base"] == "full" else [""]
     # (a global argument would swallow the path of `help <path>`: such applications get no requests)
-    reqs = [] if cfg["gargs"] else [[i, j, rng.randint(0, 48), rng.choice(["--help", "-h"]), rng.choice(["argv", "string"]),
-                                     rng.choice(extras)] for i, j in requests(cfg, True)]
-    tagged = any(a["name"] in STYLE_TAGS for c in cfg["cmds"] for x in [c] + c["subs"] for a in x["args"])
-    return {"cfg": cfg, "T": width, "ansi": rng.random() < 0.5, "pages": targets(cfg), "reqs": reqs,
+    qs = [] if cfg["gargs"] else requests(cfg, True)
+    reqs = [req(q, rng.randint(0, 342), rng.choice(["--help", "-h"]), rng.choice(["argv", "string"]), rng.choice(extras)) for q in qs]
+    # ... and the same requests, in another order and one form each, put to ONE application
+    session = [req(q, rng.randint(0, 342), rng.choice(["help", "help", "--help", "-h"]), rng.choice(["argv", "string"]), "")
+               for q in rng.sample(qs, len(qs))][:12]
+    tagged = any(a["name"] in STYLE_TAGS for x in walk(cfg["cmds"]) for a in x["args"])
+    return {"cfg": cfg, "T": width, "ansi": rng.random() < 0.5, "pages": targets(cfg), "reqs": reqs, "session": session,
             "runA": not hyphenated(cfg) and not tagged, "again": True}
 
 
@@ -722,10 +796,10 @@ def fixed_cases():
     base = {"cfg": cfg, "runA": False}
     return [
         dict(base, T=60, ansi=False, pages=[[2]], reqs=[]),
-        dict(base, T=60, ansi=False, pages=[], reqs=[[2, 0, 0, "--help"]]),
-        dict(base, T=60, ansi=False, pages=[], reqs=[[1, 0, 0, "--help"]]),
+        dict(base, T=60, ansi=False, pages=[], reqs=[req([2])]),
+        dict(base, T=60, ansi=False, pages=[], reqs=[req([1])]),
         dict(base, T=27, ansi=True, pages=[[2]], reqs=[]),
-        dict(base, T=27, ansi=True, pages=[], reqs=[[2, 0, 0, "-h"]]),
+        dict(base, T=27, ansi=True, pages=[], reqs=[req([2], flag="-h")]),
     ]
 
 
@@ -738,8 +812,11 @@ def replay_behaviour(line):
     cfg, width = rec["cfg"], rec["T"]
     h = zlib.crc32(json.dumps([cfg, width], sort_keys=True).encode())
     case = {"cfg": cfg, "T": width, "ansi": h % 2 == 0, "pages": [pg["p"] for pg in rec["pages"]],
-            "reqs": [[q["i"], q["j"], (h // 2) % 49, "--help" if (h // 98) % 2 else "-h", "string" if (h // 7 + n) % 2 else "argv", ""]
+            "reqs": [req(q["q"], (h // 2) % 343, "--help" if (h // 98) % 2 else "-h", "string" if (h // 7 + n) % 2 else "argv")
                      for n, q in enumerate(rec["reqs"])], "runA": True}
+    # the same requests once more, last first and in alternating forms, put to ONE application
+    case["session"] = [req(q["q"], (h // 3) % 343, ["help", "--help", "-h"][(h // 5 + n) % 3], "argv" if (h // 7 + n) % 2 else "string")
+                       for n, q in reversed(list(enumerate(rec["reqs"])))]
     # driver-only choices: which characters the separators are, and by which equivalent calls the configuration is written
     cfg["sep"] = (["\n", "\r", "\x0b", "\x0c"] if cfg["gw"] == 1 else ["\r\n", "\n\r", "\x0c\n"])[(h // 4) % (4 if cfg["gw"] == 1 else 3)]
     cfg["route"] = (h // 16) % 32
@@ -759,6 +836,13 @@ def replay_behaviour(line):
             if not (ev["a"]["kind"] == "ok" and ev["b"]["kind"] == "ok" and ev["a"]["lines"] == pg["lines"] == ev["b"]["lines"]):
                 same = False
         elif ev["a"]["kind"] == "ok" or ev["b"]["kind"] == "ok":
+            same = False
+    for q, ev in zip(reversed(rec["reqs"]), trace[1 + len(rec["pages"]) + len(rec["reqs"]):]):
+        pg = by_path[json.dumps(q["p"])]
+        if q["ok"] and pg["ok"]:
+            if not (ev["a"]["kind"] == "ok" and ev["a"]["lines"] == pg["lines"]):
+                same = False
+        elif ev["a"]["kind"] == "ok":
             same = False
     keep = (not same) or (h // 1000) % 23 == 0
     return {"h": h, "same": same, "pages": len(rec["pages"]), "requests": len(rec["reqs"]), "nontrivial": nontrivial,
